@@ -120,6 +120,12 @@ func runC10(x *vt.Ctx, c HistoryCase) *vt.Finding {
 			x.Label("op=%s", h.Op.Kind)
 			if h.Op.Fault != nil {
 				if w.IC.FaultFired() {
+					if failedBeforeInjection(w.IC.History()) {
+						// a step had already failed on its own before the injected one: that is a second
+						// failure, possibly of a compensating step, which the property assumes to succeed
+						x.Label("second-failure-discarded")
+						return nil
+					}
 					fired++
 					x.Label("fault-fired op=%s", h.Op.Kind)
 				} else {
@@ -176,3 +182,15 @@ var propC10 = vt.Prop[HistoryCase]{ID: "C10", Test: "TestC10", Gen: genC10, Run:
 func TestC10(t *testing.T) { topT = t; propC10.Check(t) }
 
 var _ = rapid.Bool
+
+func failedBeforeInjection(h []world.Step) bool {
+	for _, st := range h {
+		if st.Injected {
+			return false
+		}
+		if st.Err != "" {
+			return true
+		}
+	}
+	return false
+}
